@@ -1,16 +1,25 @@
-"""C14 - the synchronous API is observationally identical to the asynchronous one (F6 sibling delegation)."""
-import json, re
-from facts import walk, callee_of, call_args, loc
-import hirq, anchors, absx, sem
+"""C14 - the synchronous API is observationally identical to the asynchronous one (F6 sibling delegation).
 
-EXPLANATION = ("For every LdapConn method with a same-named Ldap method: the body is either (A) one call of Ldap::<same name> on the "
+Every clause is decided on the enumerated paths of the abstract interpreter (path condition, ordered call / store / await events,
+returned term), with `Runtime::block_on(fut)` and `tokio::spawn(fut)` modelled as "the future is run": an `async move { .. }`
+block is evaluated where it is driven, any other future value is awaited there.  Local names, statement order of independent
+`let`s, `?` versus an explicit `match`, `Result::map`, named futures and helper functions therefore do not matter."""
+import re
+from facts import walk, callee_of, loc
+import hirq, absx, sem
+
+EXPLANATION = ("For every LdapConn method with a same-named Ldap method, on every path: either (A) exactly one call of Ldap::<same name> on the "
                "connection's own handle with the method's own parameters in order (through at most the transparent IntoAdapterVec::into), "
-               "inside rt.block_on(async move { .. .await }) on the connection's own runtime, its value returned unmodified (or wrapped "
-               "into EntryStream for the two streaming searches); or (B) structurally equal to the Ldap method's body modulo self.ldap -> "
-               "self. Signatures agree modulo async / SearchStream -> EntryStream. Constructors delegate to their async siblings with "
-               "parameters in order, spawn conn.drive() and keep the returned handle. EntryStream::next/result/last_id delegate to "
-               "SearchStream::next/finish/ldap_handle().last_id(). Decided completely for what the type checker cannot see: swapped "
-               "same-typed arguments, a wrong same-typed method, a dropped or altered modifier.")
+               "driven by block_on on the connection's own runtime, its value returned unmodified (or wrapped "
+               "into EntryStream { stream, conn: self } for the two streaming searches), nothing else done; or (B) the method's paths (conditions, "
+               "ordered calls / stores / awaits, returned value) equal the paths of the Ldap method's body modulo self.ldap -> self, where a call of a "
+               "synchronous sibling LdapConn::x stands for the awaited Ldap::x. Signatures agree modulo async / SearchStream -> EntryStream. "
+               "Constructors: new / with_settings / from_url (both families) amount to from_url_with_settings(settings or LdapConnSettings::new(), "
+               "url or Url::parse(url)?) and return its result unmodified; LdapConn::from_url_with_settings builds a current-thread runtime with all "
+               "drivers enabled, runs LdapConnAsync::from_url_with_settings(settings, url) on it, on success spawns conn.drive() inside that runtime "
+               "and keeps that runtime and the returned handle, on failure returns the error unmodified and spawns nothing. "
+               "EntryStream::next/result/last_id delegate to SearchStream::next/finish/ldap_handle().last_id(). Decided completely for what the type "
+               "checker cannot see: swapped same-typed arguments, a wrong same-typed method, a dropped or altered modifier.")
 TRUSTED = ['tokio current-thread runtime block_on returns the future\'s output']
 UNDECIDED = ['behaviour of the private current-thread runtime (tokio)']
 ASSUMPTIONS = []
@@ -18,32 +27,126 @@ CONFIGS = ['default', 'rustls', 'gssapi']      # the `sync` feature is off in th
 
 SYNC = 'ldap3::sync::LdapConn::'
 ASYNC = 'ldap3::ldap::Ldap::'
+AC = 'ldap3::conn::LdapConnAsync::'
 CTORS = ('new', 'with_settings', 'from_url', 'from_url_with_settings')
+SETTINGS_NEW = 'ldap3::conn::LdapConnSettings::new'
+URL_PARSE = 'url::Url::parse'
+BUILDER = 'tokio::runtime::builder::Builder::'
+SPAWN = 'tokio::task::spawn::spawn'
+SELF = ('param', 'self')
+LDAP = ('field', SELF, 'ldap')
 
-def canon(n, selfmap):
-    """Structure of an expression without ids, spans and types; `self.ldap` normalised to `self`."""
-    if isinstance(n, list):
-        return [canon(x, selfmap) for x in n]
-    if not isinstance(n, dict):
-        return n
-    if n.get('k') == 'Field' and n.get('name') == 'ldap' and n['e'].get('k') == 'Path' and n['e'].get('name') == 'self' and selfmap:
-        return {'k': 'Path', 'name': 'self', 'res': 'local'}
-    out = {}
-    for k, v in n.items():
-        if k in ('id', 'sp', 'ty', 'bind', 'adj_ty', 'text', 'targs', 'inst'):
-            continue
-        out[k] = canon(v, selfmap)
-    return out
 
-def tail_expr(b):
-    while b['k'] == 'Block' and b.get('expr') is not None and not b['stmts']:
-        b = b['expr']
-    return b
+# ---------------------------------------------------------------------------------------
+# library models: driving a future
 
-def final_expr(b):
-    while b['k'] == 'Block' and b.get('expr') is not None:
-        b = b['expr']
-    return b
+def run_future(I, fut, st, node):
+    """Driving a future to completion: an `async move { .. }` block (wherever it was created and however it was named) is evaluated
+    where it is driven; any other future value - the value of an `async fn` call - is awaited there."""
+    if fut[0] == 'closure':
+        return I.apply_closure(fut, [('unk', 'cx')], st, node)
+    return [absx.Out('val', ('await', fut), st.event(('await', fut, node)))]
+
+def block_on_summary(I, cal, args, node, st):
+    """Runtime::block_on(fut) runs the future on the runtime; the value is what an asynchronous caller would get from `.await`.
+    What happens between the `block_on` and `block_on-end` events happens inside the runtime context."""
+    if cal.endswith('Runtime::block_on') and len(args) == 2:
+        s1 = st.event(('block_on', args[0], node))
+        return [absx.Out('val', o.val, o.st.event(('block_on-end', args[0], node))) if o.kind == 'val' else o for o in run_future(I, args[1], s1, node)]
+    return None
+
+def spawn_summary(I, cal, args, node, st):
+    """tokio::spawn(fut): the task runs the future concurrently; what it does is recorded, per path of the future, in one `spawn` event."""
+    if cal == SPAWN and len(args) == 1:
+        n0 = len(st.ev)
+        rec = tuple((o.kind, o.val, o.st.ev[n0:]) for o in run_future(I, args[0], st, node))
+        return [absx.Out('val', ('call', cal, tuple(args), node.get('id')), st.event(('spawn', rec, node)))]
+    return None
+
+SUMMARIES = [block_on_summary, spawn_summary]
+
+
+# ---------------------------------------------------------------------------------------
+# terms
+
+def call_term(c):
+    """The term the interpreter gave to the call event c = (index, callee, args, node)."""
+    i, cal, args, node = c
+    return ('call', cal, tuple(args), None if cal.rsplit('::', 1)[-1] in absx.PURE_OBSERVERS else node.get('id'))
+
+def map_term(t, fn):
+    if isinstance(t, tuple):
+        if t and isinstance(t[0], str):
+            r = fn(t)
+            if r is not None:
+                return r
+        return tuple(map_term(x, fn) for x in t)
+    return t
+
+FROM_IMPL = re.compile(r'^<.+ as core::convert::(From|Into)<.+>>::(from|into)$')
+
+def canon_result(v):
+    """A Result-valued term as ('ok', payload) / ('err', payload) / ('res', term).  The error conversion of `?` is not shown: `x?` on a
+    failed x, `Err(e) => return Err(e)`, `Err(e) => Err(From::from(e))` and `Err(e) => Err(e.into())` all give ('err', x.Err#0) - the types
+    of the two ends determine the (unique) From impl, so spelling it out or not is the same conversion."""
+    if v[0] == 'ctor' and v[1] == 'Ok' and len(v[2]) == 1:
+        return ('ok', v[2][0])
+    if v[0] == 'ctor' and v[1] == 'Err' and len(v[2]) == 1:
+        return ('err', err_payload(v[2][0]))
+    if v[0] == 'tryerr':
+        c = canon_result(v[1])
+        if c[0] == 'err':
+            return c
+        if c[0] == 'res':
+            return ('err', ('variant', c[1], 'Err', 0))
+    return ('res', v)
+
+def err_payload(p):
+    while p[0] == 'call' and len(p[2]) == 1 and (FROM_IMPL.match(p[1]) or p[1] in hirq.TRANSPARENT_CALLS):
+        p = p[2][0]
+    if p[0] == 'variant' and p[2] == 'Err' and p[3] == 0:
+        c = canon_result(p[1])
+        if c[0] == 'err':
+            return c[1]
+    return p
+
+def unmodified(v, o, base):
+    """The path returns the Result `base` as it is: the term itself, or taken apart and put together again with the same payload
+    (`Ok(x) => Ok(x)`, `Err(e) => Err(e)`, the propagation of its error by `?`) on a path that tested it accordingly."""
+    if v == base:
+        return True
+    c = canon_result(v)
+    is_base = lambda x: x == base
+    if c == ('ok', ('variant', base, 'Ok', 0)):
+        return sem.succeeded(o, is_base)
+    if c == ('err', ('variant', base, 'Err', 0)):
+        return sem.failed(o, is_base)
+    return False
+
+def wraps_stream(v, o, res):
+    """v is Ok(EntryStream { stream: <Ok payload of res>, conn: self }) on a path where res succeeded."""
+    c = canon_result(v)
+    if c[0] == 'ok' and c[1][0] == 'struct' and c[1][1] == 'sync::EntryStream' and c[1][3] is None:
+        fl = dict(c[1][2])
+        return set(fl) == {'stream', 'conn'} and fl['stream'] == ('variant', res, 'Ok', 0) and fl['conn'] == SELF and sem.succeeded(o, lambda x: x == res)
+    return False
+
+def own_params(B):
+    return [t for i, t in sorted((d['idx'], ('param', d['name'])) for b, d in B.defs.items() if d['kind'] == 'param' and not d['proj'])]
+
+def is_async_fn(f, p):
+    return f.hir[p]['body'].get('k') == 'Closure' and 'async fn body' in (f.hir[p]['body'].get('ty') or '')
+
+def effects(o, allowed=()):
+    """What a path does besides the allowed calls: stores, spawned tasks, calls into the crate."""
+    ex = [absx.fmt(e[1])[:40] for e in o.st.ev if e[0] in ('store', 'store-unknown')]
+    ex += ['spawn'] * len([e for e in o.st.ev if e[0] == 'spawn' and 'spawn' not in allowed])
+    ex += [c[1] for c in sem.calls(o, lambda c: (c.startswith('ldap3::') or c.startswith('<ldap3::')) and c not in allowed and not hirq.is_transparent(c)
+                                           and not FROM_IMPL.match(c))]      # the conversion `?` applies, spelled out
+    return ex
+
+
+# ---------------------------------------------------------------------------------------
 
 def run(ctx):
     f = ctx.facts
@@ -61,28 +164,26 @@ def run(ctx):
             continue
         n_deleg += 1
         check_signature(ctx, f, m, sp, ap)
-        blocks = [n for n, c in walk(B.root) if n['k'] == 'MethodCall' and (callee_of(n) or '').endswith('Runtime::block_on')]
-        direct = [n for n, c in walk(B.root) if n['k'] == 'MethodCall' and (callee_of(n) or '') == ap]
+        # either of the two (sound) criteria suffices: a body that calls the sibling is held to (A); any other body to (B), and if
+        # that fails for a body that drives a future, (A) says what is wrong with it as a delegation
+        blocks = any(n['k'] in ('Call', 'MethodCall') and (callee_of(n) or '').endswith('Runtime::block_on') for n, c in walk(B.root))
         calls_sibling = any(n['k'] in ('Call', 'MethodCall') and callee_of(n) == ap for n, c in walk(B.root))
-        if blocks or direct or calls_sibling:
-            check_delegation(ctx, f, B, m, ap, ('field', SELF, 'ldap'), ('field', SELF, 'rt'))
-        else:
-            a = canon(f.hir[ap]['body'], False)
-            s = canon(f.hir[sp]['body'], True)
-            ctx.add('D.same-body', m, loc(B.root), json.dumps(a, sort_keys=True) == json.dumps(s, sort_keys=True),
-                    'LdapConn::%s is neither a delegation nor structurally equal to Ldap::%s (modulo self.ldap)' % (m, m))
+        if calls_sibling:
+            check_delegation(ctx, f, B, m, ap, LDAP, ('field', SELF, 'rt'))
+        elif not check_same_behaviour(ctx, f, B, m, sp, ap, report=not blocks) and blocks:
+            check_delegation(ctx, f, B, m, ap, LDAP, ('field', SELF, 'rt'))
     ctx.floor('D', 'LdapConn operation/accessor/modifier methods', n_deleg, 19)
 
     # ---- constructors
     check_ctors(ctx, f)
 
     # ---- EntryStream
-    ES = 'ldap3::sync::EntryStream::<\'a, \'b, S, A>::'
+    es = {q.rsplit('::', 1)[-1]: q for q in f.hir if re.match(r'^ldap3::sync::EntryStream::<[^<>]*>::\w+$', q)}
     pairs = {'next': 'next', 'result': 'finish'}
     n_es = 0
     for m, target in pairs.items():
-        p = ES + m
-        if p not in f.hir:
+        p = es.get(m)
+        if p is None:
             ctx.fail('anchor-missing', 'EntryStream::' + m, '', 'public method not found'); continue
         B = hirq.Body(f, f.hir[p])
         ctx.analysed['bodies'].add(p)
@@ -91,129 +192,183 @@ def run(ctx):
         if len(tp) != 1:
             ctx.fail('anchor-missing', 'SearchStream::' + target, '', 'async sibling not found'); continue
         check_delegation(ctx, f, B, m, tp[0], ('field', SELF, 'stream'), ('field', ('field', SELF, 'conn'), 'rt'), rule='E')
-    p = ES + 'last_id'
-    if p in f.hir:
+    p = es.get('last_id')
+    if p is not None:
         B = hirq.Body(f, f.hir[p])
+        ctx.analysed['bodies'].add(p)
         n_es += 1
-        ok = False
-        louts, _I = sem.paths(f, B)
+        louts, _I = sem.paths(f, B, summaries=SUMMARIES, combinators=True)
+        ok = bool(louts)
         for o in louts:
             v = sem.strip_site(o.val) if o.kind in ('val', 'ret') else ('unk',)
-            ok = v[0] == 'call' and v[1] == ASYNC + 'last_id' and len(v[2]) == 1 and v[2][0][0] == 'call' and v[2][0][1].endswith('::ldap_handle') \
-                and v[2][0][2] == (('field', SELF, 'stream'),)
+            ok = ok and v[0] == 'call' and v[1] == ASYNC + 'last_id' and len(v[2]) == 1 and v[2][0][0] == 'call' and v[2][0][1].endswith('::ldap_handle') \
+                and v[2][0][2] == (('field', SELF, 'stream'),) and not [e for e in o.st.ev if e[0] in ('store', 'store-unknown', 'spawn', 'block_on')]
         ctx.add('E.delegates', 'last_id', loc(B.root), ok, 'EntryStream::last_id is not self.stream.ldap_handle().last_id()')
     ctx.floor('E', 'EntryStream delegations', n_es, 3)
 
-
-SELF = ('param', 'self')
-
-def block_on_summary(I, cal, args, node, st):
-    """Runtime::block_on(fut) evaluates the future: an `async move { .. }` block is run in place, any other future value is
-    awaited.  The value is what an asynchronous caller would get from `.await`."""
-    if cal.endswith('Runtime::block_on') and len(args) == 2:
-        fut = args[1]
-        s1 = st.event(('block_on', args[0], node))
-        if fut[0] == 'closure':
-            outs = []
-            for o in I.apply_closure(fut, [('unk', 'cx')], s1, node):
-                outs.append(o)
-            return outs
-        return [absx.Out('val', ('await', fut), s1.event(('await', fut, node)))]
-    return None
 
 def check_delegation(ctx, f, B, m, ap, recv_place, rt_place, rule='D'):
     """Path-level: every path makes exactly one call of the asynchronous sibling, on the right receiver, with the method's own
     parameters in order, drives it on the right runtime, and returns what that call produced (unmodified, or wrapped as
     EntryStream { stream, conn: self } for the streaming searches), with no other effect."""
-    outs, _I = sem.paths(f, B, summaries=[block_on_summary], combinators=True)
-    params = [t for i, t in sorted((d['idx'], ('param', d['name'])) for b, d in B.defs.items() if d['kind'] == 'param' and not d['proj'])][1:]
+    outs, _I = sem.paths(f, B, summaries=SUMMARIES, combinators=True)
+    params = own_params(B)[1:]
+    is_async = is_async_fn(f, ap)
+    short = ap.rsplit('::', 1)[-1]
+    family = ap.rsplit('::', 1)[0] + '::'
     n = 0
     for o in outs:
         if o.kind not in ('val', 'ret'):
-            continue
+            ctx.fail(rule + '.delegates', m, loc(B.root), 'a path of %s does not return (%s)' % (m, o.kind)); continue
         n += 1
         cs = sem.calls(o, lambda c: c == ap)
         if len(cs) != 1:
-            ctx.fail(rule + '.delegates', m, loc(B.root), 'a path of %s calls %s %d times' % (m, ap.rsplit('::', 1)[-1], len(cs))); continue
+            others = sorted({c[1] for c in sem.calls(o, lambda c: c.startswith(family) and c != ap)})
+            if not cs and others:
+                ctx.fail(rule + '.callee', m, loc(B.root), '%s runs %s instead of its sibling %s' % (m, ', '.join(x.rsplit('::', 1)[-1] for x in others), short))
+            else:
+                ctx.fail(rule + '.delegates', m, loc(B.root), 'a path of %s calls %s %d times' % (m, short, len(cs)))
+            continue
         i, cal, args, node = cs[0]
         ctx.add(rule + '.callee', m, loc(node), True, '')
         ctx.add(rule + '.receiver', m, loc(node), args[0] == recv_place, 'the delegate call is made on %s, not on %s' % (absx.fmt(args[0])[:60], absx.fmt(recv_place)))
         ctx.add(rule + '.arguments-in-order', m, loc(node), list(args[1:]) == params,
-                'arguments passed to %s are %s, expected the parameters in order %s' % (ap.rsplit('::', 1)[-1], [absx.fmt(a)[:30] for a in args[1:]], [absx.fmt(p) for p in params]))
-        bos = [e for e in o.st.ev if e[0] == 'block_on']
-        call_t = ('call', cal, args, node.get('id'))
-        is_async = 'async fn body' in ((f.hir[ap]['body'].get('ty') or '') if f.hir[ap]['body'].get('k') == 'Closure' else '')
+                'arguments passed to %s are %s, expected the parameters in order %s' % (short, [absx.fmt(a)[:30] for a in args[1:]], [absx.fmt(p) for p in params]))
+        bos = [(j, e) for j, e in enumerate(o.st.ev) if e[0] == 'block_on']
+        ends = [j for j, e in enumerate(o.st.ev) if e[0] == 'block_on-end']
+        call_t = call_term(cs[0])
         if is_async:
-            ctx.add(rule + '.own-runtime', m, loc(node), len(bos) == 1 and bos[0][1] == rt_place, 'the future is not driven (exactly once) on %s' % absx.fmt(rt_place))
+            aws = [j for j, t, nd in sem.awaits(o) if t == call_t]
+            ok = len(bos) == 1 and bos[0][1][1] == rt_place and len(aws) == 1 and len(ends) == 1 and bos[0][0] < aws[0] < ends[0]
+            ctx.add(rule + '.own-runtime', m, loc(node), ok, 'the future is not driven (exactly once) on %s' % absx.fmt(rt_place))
             res = ('await', call_t)
         else:
+            ctx.add(rule + '.own-runtime', m, loc(node), not bos, 'a synchronous sibling needs no runtime')
             res = call_t
         v = o.val
-        ok = v == res or (not is_async and v == SELF and recv_place[0] == 'field')
-        if not ok and v[0] == 'ctor' and v[1] == 'Ok' and v[2] and v[2][0][0] == 'struct' and v[2][0][1].endswith('EntryStream'):
-            fl = dict(v[2][0][2])
-            ok = fl.get('stream') == ('variant', res, 'Ok', 0) and fl.get('conn') == SELF
-        if not ok and sem.is_err_result(v):
-            ok = sem.has(v, lambda x: x == res) and sem.failed(o, lambda x: x == res)
+        ok = unmodified(v, o, res) or (not is_async and v == SELF and recv_place[0] == 'field') or wraps_stream(v, o, res)
         ctx.add(rule + '.returns-result', m, loc(B.root), ok, 'the value of the delegate call is not returned unmodified (or wrapped as EntryStream { stream, conn: self }): %s' % absx.fmt(v)[:100])
-        extra = [e for e in o.st.ev if e[0] == 'store'] + [c for c in sem.calls(o, lambda c: (c.startswith('ldap3::') or c.startswith('<ldap3::')) and c != ap and not hirq.is_transparent(c))]
-        ctx.add(rule + '.no-extra-effects', m, loc(B.root), not extra, '%s does something besides delegating: %s' % (m, [absx.fmt(e[1])[:40] if e[0] == 'store' else e[1] for e in extra][:3]))
+        extra = effects(o, allowed=(ap,))
+        ctx.add(rule + '.no-extra-effects', m, loc(B.root), not extra, '%s does something besides delegating: %s' % (m, extra[:3]))
     ctx.add(rule + '.delegates', m + '|paths', loc(B.root), n >= 1, 'no path of %s returns' % m)
 
-def param_origins(B):
-    ps = sorted(((d['idx'], d['name']) for b, d in B.defs.items() if d['kind'] == 'param' and not d['proj']))
-    return [(('param', n), ()) for i, n in ps]
 
-def async_block_call(block_on):
-    """The single awaited call inside `async move { <call>.await }`."""
-    if not block_on['args'] or block_on['args'][0]['k'] != 'Closure':
-        return None
-    b = block_on['args'][0]['body']
-    t = tail_expr(b)
-    if b['k'] == 'Block' and b['stmts']:
-        return None
-    if t['k'] == 'Await' and t['e']['k'] == 'MethodCall':
-        return t['e']
-    return None
+# ---------------------------------------------------------------------------------------
+# (B) same behaviour as the asynchronous body
 
-def check_form_a(ctx, f, B, m, ap, blocks):
-    if len(blocks) != 1:
-        ctx.fail('D.single-block-on', m, loc(B.root), 'expected one block_on, found %d' % len(blocks)); return
-    bo = blocks[0]
-    ctx.add('D.own-runtime', m, loc(bo), B.origin(bo['recv']) == (('param', 'self'), (('field', 'rt'),)), 'block_on is not called on the connection\'s own runtime')
-    inner = async_block_call(bo)
-    if inner is None:
-        ctx.fail('D.delegates', m, loc(bo), 'the blocked-on future is not `async move { ldap.%s(..).await }`' % m); return
-    ctx.add('D.callee', m, loc(inner), callee_of(inner) == ap, 'LdapConn::%s blocks on %s instead of Ldap::%s' % (m, callee_of(inner), m))
-    ctx.add('D.receiver', m, loc(inner), B.origin(inner['recv']) == (('param', 'self'), (('field', 'ldap'),)), 'the delegate call is not made on the connection\'s own handle')
-    want = param_origins(B)[1:]
-    got = []
-    for a in inner['args']:
-        x = a
-        if x['k'] == 'MethodCall' and (callee_of(x) or '').endswith('IntoAdapterVec<\'a, S, A>>::into'):
-            x = x['recv']
-        got.append(B.origin(x))
-    ctx.add('D.arguments-in-order', m, loc(inner), got == want,
-            'arguments passed to Ldap::%s are %s, expected the parameters in order %s' % (m, [hirq.fmt_origin(o) for o in got], [hirq.fmt_origin(o) for o in want]))
-    # value returned unmodified, or wrapped into EntryStream
-    t = final_expr(B.root)
-    if t is bo:
-        ctx.ok('D.returns-result', m, loc(bo))
-    else:
-        ok = False
-        if t['k'] == 'Call' and hirq.short_def(t['f'].get('def', '')) == 'Ok' and t['args'][0]['k'] == 'Struct' and t['args'][0].get('def') == 'ldap3::sync::EntryStream':
-            fl = {x['name']: x['e'] for x in t['args'][0]['fields']}
-            os = B.origin(fl.get('stream')) if 'stream' in fl else None
-            ok = os is not None and os[0][0] == 'call' and os[0][2] == bo.get('id') and os[1] == (('try',),) \
-                and B.origin(fl.get('conn')) == (('param', 'self'), ())
-        ctx.add('D.returns-result', m, loc(t), ok, 'the value of the delegate call is not returned unmodified (or wrapped as EntryStream { stream, conn: self })')
-    # no other effectful statements: only `let rt = &mut self.rt; let ldap = &mut self.ldap;`
-    others = [n for n, c in walk(B.root) if n['k'] in ('Assign', 'AssignOp') and not any(a['k'] == 'Closure' for a, _ in c)]
-    ctx.add('D.no-extra-effects', m, loc(B.root), not others, 'LdapConn::%s modifies state besides delegating' % m)
+SKIP_EVENTS = ('log', 'try-err', 'assign-local', 'loop-carried')
+
+def norm_paths(f, B, side):
+    """The paths of a body as comparable records (kind, condition, events, value).
+    side 'async': `self` is written as the synchronous side sees it (`self.ldap`).
+    side 'sync' : a call of a synchronous sibling LdapConn::x(self, ..) stands for what that sibling is (separately) shown to be, the
+    awaited Ldap::x(self.ldap, ..); block_on markers are dropped (the runtime must be the connection's own)."""
+    outs, _I = sem.paths(f, B, summaries=SUMMARIES, combinators=True)
+    def tr(t):
+        t = sem.strip_site(t)
+        if side == 'async':
+            return map_term(t, lambda x: LDAP if x == SELF else None)
+        def sib(x):
+            if x[0] == 'call' and x[1].startswith(SYNC) and ASYNC + x[1][len(SYNC):] in f.hir and x[2] and x[2][0] == SELF:
+                ap = ASYNC + x[1][len(SYNC):]
+                c = ('call', ap, (LDAP,) + tuple(map_term(a, sib) for a in x[2][1:]), None)
+                return ('await', c) if is_async_fn(f, ap) else c
+            return None
+        return map_term(t, sib)
+    recs = []
+    for o in outs:
+        evs = []
+        foreign = False
+        for e in o.st.ev:
+            if e[0] in SKIP_EVENTS or e[0] == 'block_on-end':
+                continue
+            if e[0] == 'block_on':
+                foreign = foreign or e[1] != ('field', SELF, 'rt')
+                continue
+            if e[0] == 'call':
+                t = tr(('call', e[1], tuple(e[2]), None))
+                if t[0] == 'await':
+                    evs.append(('call', t[1][1], t[1][2])); evs.append(('await', t[1]))
+                else:
+                    evs.append(('call', t[1], t[2]))
+            elif e[0] == 'spawn':
+                evs.append(('spawn', tuple((k, tr(v)) for k, v, _ev in e[1])))
+            else:
+                evs.append((e[0],) + tuple(tr(x) for x in e[1:-1] if isinstance(x, tuple)))
+        if foreign:
+            evs.append(('foreign-runtime',))
+        kind = 'return' if o.kind in ('val', 'ret') else o.kind
+        v = o.val
+        if kind == 'return':
+            # a Result handed on piecewise is the Result itself; so is (on the synchronous side) the Result of a stream whose Ok payload
+            # is wrapped as EntryStream { stream, conn: self } - the signatures say where that wrapping is due
+            for b in absx.leaves(v, lambda x: x[0] in ('await', 'call')):
+                if unmodified(v, o, b) or (side == 'sync' and wraps_stream(v, o, b)):
+                    v = b; break
+        pc = frozenset((tr(a), t) for a, t in o.st.pc)
+        recs.append((kind, pc, tuple(evs), tr(v)))
+    # two paths that differ only in the outcome of one test and do the same thing are one path without that test
+    changed = True
+    while changed:
+        changed = False
+        for i in range(len(recs)):
+            for j in range(i + 1, len(recs)):
+                a, b = recs[i], recs[j]
+                if a[0] == b[0] and a[2] == b[2] and a[3] == b[3]:
+                    d = a[1] ^ b[1]
+                    if len(d) == 2 and len({x[0] for x in d}) == 1:
+                        recs[i] = (a[0], a[1] & b[1], a[2], a[3])
+                        del recs[j]
+                        changed = True
+                        break
+            if changed:
+                break
+    return recs
+
+def fmt_rec(r):
+    kind, pc, evs, v = r
+    return '%s %s after [%s]%s' % (kind, absx.fmt(v)[:80], '; '.join('%s %s' % (e[0], ' '.join(absx.fmt(x)[:50] if isinstance(x, tuple) else str(x).rsplit('::', 1)[-1] for x in e[1:])) for e in evs)[:160],
+                                  (' if ' + ', '.join(('' if t else 'not ') + absx.fmt(a)[:40] for a, t in sorted(pc, key=str))) if pc else '')
+
+def check_same_behaviour(ctx, f, B, m, sp, ap, report=True):
+    """(B) the synchronous method does, path by path, what the asynchronous body does on the connection's handle."""
+    try:
+        s = norm_paths(f, B, 'sync')
+        a = norm_paths(f, hirq.Body(f, f.hir[ap]), 'async')
+    except absx.TooManyPaths:
+        if report:
+            ctx.fail('D.same-body', m, loc(B.root), 'LdapConn::%s / Ldap::%s have too many paths to compare' % (m, m))
+        return False
+    ctx.analysed['bodies'].add(ap)
+    def rel(sv, av):
+        # `&mut Self` is returned by both: the connection here, its handle there
+        return sv == av or (sv == SELF and av == LDAP)
+    rest = list(a)
+    miss = []
+    for r in s:
+        hit = next((x for x in rest if x[0] == r[0] and x[1] == r[1] and x[2] == r[2] and rel(r[3], x[3])), None)
+        if hit is None:
+            miss.append(r)
+        else:
+            rest.remove(hit)
+    ok = bool(s) and not miss and not rest
+    detail = ''
+    if not ok:
+        detail = 'LdapConn::%s is neither a delegation to Ldap::%s nor does it do the same as its body (modulo self.ldap): ' % (m, m)
+        if miss:
+            detail += 'sync only: ' + fmt_rec(miss[0]) + ' | '
+        if rest:
+            detail += 'async only: ' + fmt_rec(rest[0])
+    if ok or report:
+        ctx.add('D.same-body', m, loc(B.root), ok, detail[:600])
+    return ok
+
+
+# ---------------------------------------------------------------------------------------
 
 def norm_ty(t):
-    t = re.sub(r"ldap3::search::SearchStream<'a, S, A>", 'STREAM', t)
-    t = re.sub(r"ldap3::sync::EntryStream<'a, 'b, S, A>", 'STREAM', t)
+    t = re.sub(r"ldap3::search::SearchStream<[^<>]*>", 'STREAM', t)
+    t = re.sub(r"ldap3::sync::EntryStream<[^<>]*>", 'STREAM', t)
     t = re.sub(r"&'[a-z_0-9]+ ", '&', t)
     t = t.replace('ldap3::sync::LdapConn', 'SELF').replace('ldap3::ldap::Ldap', 'SELF')
     m = re.match(r'impl core::future::future::Future<Output = (.*)>$', t)
@@ -229,62 +384,234 @@ def check_signature(ctx, f, m, sp, ap):
         and si['vis'] == 'pub'
     ctx.add('D.signature', m, '', ok, 'LdapConn::%s%s -> %s differs from Ldap::%s%s -> %s' % (m, si['inputs'], si['output'], m, ai['inputs'], ai['output']))
 
-def check_ctors(ctx, f):
-    AC = 'ldap3::conn::LdapConnAsync::'
+
+# ---------------------------------------------------------------------------------------
+# constructors
+
+def ctor_spec(f, p):
+    """What a constructor of either family amounts to, read off its signature: from_url_with_settings(S, U) with
+    S = its settings parameter, or LdapConnSettings::new() if it has none; U = its url parameter, parsed if it is a string."""
+    it = f.items.get(p)
+    B = hirq.Body(f, f.body(p))
+    ps = own_params(B)
+    S, U = ('call', SETTINGS_NEW, (), None), None
+    if it is None or len(it['inputs']) != len(ps):
+        return None
+    for ty, t in zip(it['inputs'], ps):
+        ty = re.sub(r"&'[a-z_0-9]+ ", '&', ty)
+        if ty == 'ldap3::conn::LdapConnSettings':
+            S = t
+        elif ty == '&url::Url':
+            U = t
+        elif ty == '&str':
+            U = ('parsed', t)
+        else:
+            return None
+    return (S, U) if U is not None else None
+
+def check_delegating_ctor(ctx, f, kind, prefix, name):
+    """new / with_settings / from_url: on every path the url string (if the constructor takes one) is parsed once; if that fails its error
+    is returned (through `?`'s conversion) and nothing else happens; otherwise exactly one constructor of the same family that is nearer
+    to from_url_with_settings is called with arguments that make it amount to the same from_url_with_settings(S, U), and its result is
+    returned unmodified."""
+    rule = 'T.' + name
+    p = prefix + name
+    B = hirq.Body(f, f.body(p))
+    ctx.analysed['bodies'].add(p)
+    spec = ctor_spec(f, p)
+    if spec is None:
+        ctx.fail(rule, kind, loc(B.root), 'the signature of %s is not (settings?, url)' % name); return
+    rank = {'new': 0, 'with_settings': 1, 'from_url': 1, 'from_url_with_settings': 2}
+    outs, _I = sem.paths(f, B, summaries=SUMMARIES, combinators=True)
+    bad = []
     n = 0
-    def body(p):
-        ctx.analysed['bodies'].add(p)
-        return hirq.Body(f, f.body(p))
-    def single_call(B, callee):
-        cs = [x for x, c in walk(B.root) if x['k'] in ('Call', 'MethodCall') and callee_of(x) == callee]
-        return cs[0] if len(cs) == 1 else None
-    # new -> with_settings(LdapConnSettings::new(), url)
+    for o in outs:
+        if o.kind not in ('val', 'ret'):
+            bad.append('a path does not return (%s)' % o.kind); continue
+        n += 1
+        parses = sem.calls(o, lambda c: c == URL_PARSE)
+        dels = sem.calls(o, lambda c: c.startswith(prefix) and c[len(prefix):] in rank)
+        extra = effects(o, allowed=tuple(prefix + x for x in rank) + (SETTINGS_NEW,))
+        if extra:
+            bad.append('does something besides delegating: %s' % extra[:3])
+        parsed = {}
+        failed_parse = None
+        for c in parses:
+            t = call_term(c)
+            if len(c[2]) != 1 or sem.strip_site(c[2][0]) in [sem.strip_site(x) for x in parsed.values()]:
+                bad.append('the url is parsed more than once')
+            if sem.succeeded(o, lambda x: x == t):
+                parsed[('variant', t, 'Ok', 0)] = c[2][0]
+            elif sem.failed(o, lambda x: x == t):
+                failed_parse = t
+            else:
+                bad.append('the result of Url::parse is used without being examined')
+        if failed_parse is not None:
+            if dels:
+                bad.append('a constructor is called although the url did not parse')
+            if not unmodified(o.val, o, failed_parse):
+                bad.append('the error of Url::parse is not returned as it is: %s' % absx.fmt(o.val)[:60])
+            continue
+        if len(dels) != 1:
+            bad.append('a path calls %d constructors of its family' % len(dels)); continue
+        i, cal, args, node = dels[0]
+        dname = cal[len(prefix):]
+        dspec = ctor_spec(f, cal)
+        if rank[dname] <= rank[name] or dspec is None:
+            bad.append('delegates to %s, which is not nearer to from_url_with_settings' % dname); continue
+        # instantiate the delegate's (S, U) with the actual arguments
+        dB = hirq.Body(f, f.body(cal))
+        actual = dict(zip(own_params(dB), args))
+        def inst(t):
+            t = map_term(t, lambda x: actual.get(x))
+            t = map_term(t, lambda x: ('parsed', parsed[x]) if x in parsed else None)
+            return sem.strip_site(t)
+        got = (inst(dspec[0]), inst(dspec[1]))
+        if got != spec:
+            bad.append('%s(%s) amounts to from_url_with_settings(%s, %s), expected (%s, %s)' % (dname, ', '.join(absx.fmt(a)[:30] for a in args), absx.fmt(got[0])[:40], absx.fmt(got[1])[:40],
+                                                                                            absx.fmt(spec[0]), absx.fmt(spec[1])))
+        call_t = call_term(dels[0])
+        if is_async_fn(f, cal):
+            if len([1 for j, t, nd in sem.awaits(o) if t == call_t]) != 1:
+                bad.append('the future of %s is not awaited (once)' % dname)
+            res = ('await', call_t)
+        else:
+            res = call_t
+        if not unmodified(o.val, o, res):
+            bad.append('the result of %s is not returned unmodified: %s' % (dname, absx.fmt(o.val)[:80]))
+    if not n:
+        bad.append('no path returns')
+    text = {'new': 'new(url) is not with_settings(LdapConnSettings::new(), url)', 'from_url': 'from_url(url) is not from_url_with_settings(LdapConnSettings::new(), url)',
+            'with_settings': 'with_settings(settings, url) is not from_url_with_settings(settings, &Url::parse(url)?)'}[name]
+    ctx.add(rule, kind, loc(B.root), not bad, '%s: %s' % (text, '; '.join(sorted(set(bad)))[:300]))
+
+def builder_root(t):
+    """The Builder a term denotes: the configuration methods of tokio's runtime Builder return the builder they are called on."""
+    while t[0] == 'call' and t[1].startswith(BUILDER) and t[1] != BUILDER + 'new_current_thread' and t[2]:
+        t = t[2][0]
+    return t
+
+def check_sync_from_url_with_settings(ctx, f):
+    p, dp = SYNC + 'from_url_with_settings', AC + 'from_url_with_settings'
+    B = hirq.Body(f, f.body(p))
+    ctx.analysed['bodies'].add(p)
+    outs, _I = sem.paths(f, B, summaries=SUMMARIES, combinators=True)
+    params = own_params(B)
+    rules = ('runtime', 'delegates', 'drives', 'keeps-handle', 'error-unmodified', 'no-extra-effects')
+    bad = {r: [] for r in rules}
+    n_ok = 0
+    for o in outs:
+        if o.kind not in ('val', 'ret'):
+            bad['delegates'].append('a path of the constructor does not return (%s)' % o.kind); continue
+        ev, v = o.st.ev, o.val
+        extra = effects(o, allowed=(dp, 'spawn', AC + 'drive'))
+        # creating the future of drive() is inert; it has to be the future the spawned task awaits (checked below on the success path)
+        spawned_awaits = [e2[1] for e in ev if e[0] == 'spawn' for k_, v_, sev in e[1] for e2 in sev if e2[0] == 'await']
+        extra += [c[1] for c in sem.calls(o, lambda c: c == AC + 'drive') if call_term(c) not in spawned_awaits]
+        if extra:
+            bad['no-extra-effects'].append('the constructor does something besides connecting: %s' % extra[:3])
+        # ---- the runtime: a current-thread runtime with the I/O and time drivers, built here
+        nct = sem.calls(o, lambda c: c == BUILDER + 'new_current_thread')
+        blds = sem.calls(o, lambda c: c == BUILDER + 'build')
+        cfg = sem.calls(o, lambda c: c.startswith(BUILDER) and c not in (BUILDER + 'new_current_thread', BUILDER + 'build'))
+        rt_res = None
+        if len(nct) == 1 and len(blds) == 1 and len(blds[0][2]) == 1:
+            root = call_term(nct[0])
+            on = {c[1][len(BUILDER):] for c in cfg if c[0] < blds[0][0] and c[2] and builder_root(c[2][0]) == root}
+            stray = [c for c in cfg if not (c[0] < blds[0][0] and c[2] and builder_root(c[2][0]) == root)]
+            if builder_root(blds[0][2][0]) == root and not stray and (on == {'enable_all'} or on == {'enable_io', 'enable_time'}):
+                rt_res = call_term(blds[0])
+        if rt_res is None:
+            bad['runtime'].append('the runtime is not built as Builder::new_current_thread() with all drivers enabled (once, on every path)'); continue
+        is_rt = lambda x: x == rt_res
+        bos = [(j, e) for j, e in enumerate(ev) if e[0] == 'block_on']
+        ends = [j for j, e in enumerate(ev) if e[0] == 'block_on-end']
+        dcalls = sem.calls(o, lambda c: c == dp)
+        spawns = [(j, e) for j, e in enumerate(ev) if e[0] == 'spawn']
+        if sem.failed(o, is_rt):
+            if bos or dcalls or spawns:
+                bad['delegates'].append('something is run although the runtime could not be built')
+            if not unmodified(v, o, rt_res):
+                bad['error-unmodified'].append('the error of building the runtime is not returned as it is: %s' % absx.fmt(v)[:60])
+            continue
+        if not sem.succeeded(o, is_rt):
+            bad['runtime'].append('the result of building the runtime is used without being examined'); continue
+        rt = ('variant', rt_res, 'Ok', 0)
+        if len(bos) != 1 or bos[0][1][1] != rt or len(ends) != 1:
+            bad['runtime'].append('the connection is not set up by exactly one block_on on the runtime built here'); continue
+        lo, hi = bos[0][0], ends[0]
+        # ---- the asynchronous constructor, with the own parameters in order, awaited inside block_on
+        if len(dcalls) != 1:
+            bad['delegates'].append('a path calls LdapConnAsync::from_url_with_settings %d times' % len(dcalls)); continue
+        i, cal, args, node = dcalls[0]
+        if list(args) != params:
+            bad['delegates'].append('LdapConnAsync::from_url_with_settings is called with %s, expected the parameters in order %s' % ([absx.fmt(a)[:30] for a in args], [absx.fmt(x) for x in params]))
+        call_t = call_term(dcalls[0])
+        aw = ('await', call_t)
+        aws = [j for j, t, nd in sem.awaits(o) if t == call_t]
+        if len(aws) != 1 or not (lo < aws[0] < hi):          # calling an `async fn` is inert: where its future is awaited is what counts
+            bad['delegates'].append('the future of the asynchronous constructor is not awaited (once) inside block_on'); continue
+        is_aw = lambda x: x == aw
+        if sem.succeeded(o, is_aw):
+            pair = ('variant', aw, 'Ok', 0)
+            conn, handle = absx.tuple_elem(pair, 0), absx.tuple_elem(pair, 1)
+            # ---- the connection half is driven by a task spawned inside the runtime, after the connection is there
+            if len(spawns) != 1 or not (aws[0] < spawns[0][0] < hi):
+                bad['drives'].append('on success, not exactly one task is spawned inside block_on after the connection was established')
+            else:
+                rec = spawns[0][1][1]
+                if not rec:
+                    bad['drives'].append('the spawned future has no path')
+                for kind, val, sev in rec:
+                    # the drive() future is created by the task, or created (inert) before and handed to it
+                    dr = [(j, e) for j, e in enumerate(sev) if e[0] == 'call' and e[1] == AC + 'drive'] or \
+                         [(-1, ('call', c[1], c[2], c[3])) for c in sem.calls(o, lambda c: c == AC + 'drive') if c[0] < spawns[0][0] and ('await', call_term(c)) in [e[:2] for e in sev]]
+                    other = [e[1] for e in sev if e[0] == 'call' and (e[1].startswith('ldap3::') or e[1].startswith('<ldap3::')) and e[1] != AC + 'drive' and not hirq.is_transparent(e[1])]
+                    if kind != 'val' or len(dr) != 1 or tuple(dr[0][1][2]) != (conn,) or other or [e for e in sev if e[0] in ('store', 'store-unknown', 'spawn')]:
+                        bad['drives'].append('the spawned task is not (only) drive() of the connection returned by the asynchronous constructor'); continue
+                    dt = ('call', dr[0][1][1], tuple(dr[0][1][2]), dr[0][1][3].get('id'))
+                    if len([1 for e in sev if e[0] == 'await' and e[1] == dt]) != 1:
+                        bad['drives'].append('the future of drive() is not awaited by the spawned task')
+            # ---- the value: the runtime that was used and the handle that was returned
+            c = canon_result(v)
+            okv = c[0] == 'ok' and c[1][0] == 'struct' and c[1][1] == 'sync::LdapConn' and c[1][3] is None and dict(c[1][2]) == {'ldap': handle, 'rt': rt} and len(c[1][2]) == 2
+            if not okv:
+                bad['keeps-handle'].append('on success the value is not Ok(LdapConn { ldap: <handle returned by the asynchronous constructor>, rt: <the runtime it was driven on> }): %s' % absx.fmt(v)[:120])
+            else:
+                n_ok += 1
+        elif sem.failed(o, is_aw):
+            if spawns:
+                bad['drives'].append('a task is spawned although the asynchronous constructor failed')
+            if not unmodified(v, o, aw):
+                bad['error-unmodified'].append('the error of the asynchronous constructor is not returned as it is: %s' % absx.fmt(v)[:80])
+        else:
+            bad['delegates'].append('the result of the asynchronous constructor is used without being examined')
+    if not n_ok and not any(bad.values()):
+        bad['keeps-handle'].append('no path returns a connection')
+    text = {'runtime': '', 'delegates': 'LdapConn::from_url_with_settings does not call the async constructor with (settings, url): ',
+            'drives': 'the connection returned by the async constructor is not spawned with drive(): ',
+            'keeps-handle': 'LdapConn does not keep the handle returned by the async constructor and the runtime that drives it: ',
+            'error-unmodified': '', 'no-extra-effects': ''}
+    for r in rules:
+        ctx.add('T.from_url_with_settings.' + r, 'sync', loc(B.root), not bad[r], text[r] + '; '.join(sorted(set(bad[r])))[:300])
+    return len(rules)
+
+def check_ctor_signature(ctx, f, name):
+    si, ai = f.items.get(SYNC + name), f.items.get(AC + name)
+    if not si or not ai:
+        ctx.fail('T.signature', name, '', 'signature facts missing'); return
+    strip = lambda t: re.sub(r"&'[a-z_0-9]+ ", '&', t)
+    ok = [strip(x) for x in si['inputs']] == [strip(x) for x in ai['inputs']] and si['vis'] == 'pub' and ai['vis'] == 'pub' \
+        and si['output'] == 'core::result::Result<ldap3::sync::LdapConn, ldap3::result::LdapError>' \
+        and ai['output'] == 'impl core::future::future::Future<Output = core::result::Result<(ldap3::conn::LdapConnAsync, ldap3::ldap::Ldap), ldap3::result::LdapError>>'
+    ctx.add('T.signature', name, '', ok, 'LdapConn::%s%s -> %s does not mirror LdapConnAsync::%s%s -> %s' % (name, si['inputs'], si['output'], name, ai['inputs'], ai['output']))
+
+def check_ctors(ctx, f):
+    n = 0
+    for name in CTORS:
+        check_ctor_signature(ctx, f, name); n += 1
     for kind, prefix in (('sync', SYNC), ('async', AC)):
-        B = body(prefix + 'new')
-        c = single_call(B, prefix + 'with_settings')
-        ok = c is not None and len(c['args']) == 2 and c['args'][0]['k'] == 'Call' and callee_of(c['args'][0]) == 'ldap3::conn::LdapConnSettings::new' \
-            and B.origin(c['args'][1]) == (('param', 'url'), ())
-        ctx.add('T.new', kind, loc(B.root), ok, 'new(url) is not with_settings(LdapConnSettings::new(), url)'); n += 1
-        B = body(prefix + 'from_url')
-        c = single_call(B, prefix + 'from_url_with_settings')
-        ok = c is not None and len(c['args']) == 2 and c['args'][0]['k'] == 'Call' and callee_of(c['args'][0]) == 'ldap3::conn::LdapConnSettings::new' \
-            and B.origin(c['args'][1]) == (('param', 'url'), ())
-        ctx.add('T.from_url', kind, loc(B.root), ok, 'from_url(url) is not from_url_with_settings(LdapConnSettings::new(), url)'); n += 1
-        B = body(prefix + 'with_settings')
-        c = single_call(B, prefix + 'from_url_with_settings')
-        ok = c is not None and len(c['args']) == 2 and B.origin(c['args'][0]) == (('param', 'settings'), ())
-        if ok:
-            o = B.origin(c['args'][1])
-            ok = o[0][0] == 'call' and o[0][1] == 'url::Url::parse' and o[1] == (('try',),)
-            pn = B.by_id.get(o[0][2])
-            ok = ok and pn is not None and B.origin(pn['args'][0]) == (('param', 'url'), ())
-        ctx.add('T.with_settings', kind, loc(B.root), ok, 'with_settings(settings, url) is not from_url_with_settings(settings, &Url::parse(url)?)'); n += 1
-    B = body(SYNC + 'from_url_with_settings')
-    c = single_call(B, AC + 'from_url_with_settings')
-    ok = c is not None and [B.origin(a) for a in c['args']] == [(('param', 'settings'), ()), (('param', 'url'), ())]
-    ctx.add('T.from_url_with_settings.delegates', 'sync', loc(B.root), ok, 'LdapConn::from_url_with_settings does not call the async constructor with (settings, url)')
-    n += 1
-    drives = [x for x, cc in walk(B.root) if x['k'] == 'MethodCall' and callee_of(x) == AC + 'drive']
-    spawns = [x for x, cc in walk(B.root) if x['k'] == 'Call' and (callee_of(x) or '') == 'tokio::task::spawn::spawn']
-    ok = len(drives) == 1 and len(spawns) == 1 and c is not None
-    if ok:
-        o = B.origin(drives[0]['recv'])
-        ok = c.get('id') in str(o) and any(x is drives[0] for x, _ in walk(spawns[0]))
-    ctx.add('T.from_url_with_settings.drives', 'sync', loc(B.root), ok, 'the connection returned by the async constructor is not spawned with drive()')
-    st = [x for x, cc in walk(B.root) if x['k'] == 'Struct' and x.get('def') == 'ldap3::sync::LdapConn']
-    ok = len(st) == 1 and c is not None
-    if ok:
-        fl = {x['name']: x['e'] for x in st[0]['fields']}
-        bo = [x for x, cc in walk(B.root) if x['k'] == 'MethodCall' and (callee_of(x) or '').endswith('Runtime::block_on')]
-        ok = len(bo) == 1 and hirq.local_of(bo[0]['recv']) == hirq.local_of(fl['rt'])
-        if ok:
-            o = B.origin(fl['ldap'])
-            ok = o[0][0] == 'call' and o[0][2] == bo[0].get('id') and o[1] == (('try',),)
-            cl = bo[0]['args'][0]
-            t = final_expr(cl['body']) if cl['k'] == 'Closure' else None
-            ok = ok and t is not None and t['k'] == 'Call' and hirq.short_def(t['f'].get('def', '')) == 'Ok'
-            if ok:
-                oi = B.origin(t['args'][0])
-                ok = oi[0][0] == 'call' and oi[0][2] == c.get('id') and oi[1] == (('await',), ('variant', 'Ok', 0), ('tup', 1))
-    ctx.add('T.from_url_with_settings.keeps-handle', 'sync', loc(B.root), ok, 'LdapConn does not keep the handle returned by the async constructor and the runtime that drives it')
-    ctx.floor('T', 'constructor obligations', n, 7)
+        for name in ('new', 'from_url', 'with_settings'):
+            check_delegating_ctor(ctx, f, kind, prefix, name); n += 1
+    n += check_sync_from_url_with_settings(ctx, f)
+    ctx.floor('T', 'constructor obligations', n, 16)
